@@ -23,7 +23,7 @@ def Agree (i : Nat) (p hp : MerkleProof) : Prop :=
   p.target.hash = hp.target.hash ∧ p.target.upper = hp.target.upper ∧
   (i % 2 = 0 → p.target = hp.target ∧ p.hashRanges = hp.hashRanges) ∧
   (i % 2 = 1 → ∃ s0 rest h0, p.hashRanges = s0 :: rest ∧ hp.hashRanges = h0 :: rest ∧
-      s0.hash = h0.hash ∧ s0.lower = h0.lower ∧ s0.upper = p.target.lower)
+      s0.hash = h0.hash ∧ s0.lower = h0.lower ∧ s0.upper = p.target.lower ∧ h0.upper = hp.target.lower)
 
 /-- Unfolding of an accepting `validateH`. -/
 theorem validateH_accept (p : MerkleProof) (root : HashRange) (lh : Bytes) (n : Nat) (rep : Bool)
@@ -141,7 +141,15 @@ theorem validate_sound_entries (hH : ∀ x, (H x).length = 32) (es : List Entry)
                 exact ⟨e3, hup⟩)
           · intro hpar
             obtain ⟨e3, e4, e5⟩ := hod hpar
-            refine ⟨s0, rest, p0, hsibs, ?_, hsh, e4, e5⟩
+            have hadjc : p0.upper = d.lower := by
+              have hsib : sibIndex (pathIndex (k + 1) p.index) = pathIndex (k + 1) p.index - 1 := by
+                simp [sibIndex, hpar]
+              have hge : 1 ≤ pathIndex (k + 1) p.index := by omega
+              rw [hsib] at hp0
+              have hd2 : data[pathIndex (k + 1) p.index - 1 + 1]? = some d := by
+                rw [Nat.sub_add_cancel hge]; exact hd
+              exact Contig.adjacent data 0 _ p0 d hc hp0 hd2
+            refine ⟨s0, rest, p0, hsibs, ?_, hsh, e4, e5, hadjc⟩
             show pathOf H post (k + 1) data (pathIndex (k + 1) p.index) = p0 :: rest
             rw [show pathOf H post (k + 1) data (pathIndex (k + 1) p.index) =
               (data[sibIndex (pathIndex (k + 1) p.index)]?).getD default ::
